@@ -1,0 +1,191 @@
+//go:build verif
+// +build verif
+
+package storage
+
+// Hooks for the verification harness in /verif (compiled only with -tags verif).
+// They construct the repository's own objects in isolation and expose
+// unexported state read-only; no behaviour is changed.
+
+import (
+	"sync"
+
+	"github.com/marekgalovic/anndb/cluster"
+	"github.com/marekgalovic/anndb/index"
+	pb "github.com/marekgalovic/anndb/protobuf"
+	"github.com/marekgalovic/anndb/storage/raft"
+	"github.com/marekgalovic/anndb/storage/wal"
+	"github.com/marekgalovic/anndb/utils"
+
+	badger "github.com/dgraph-io/badger/v2"
+	uuid "github.com/satori/go.uuid"
+	log "github.com/sirupsen/logrus"
+)
+
+// ---- stand-alone partition state machine ---------------------------------
+
+// VerifPartitionSM is a partition without raft: the real process / snapshot /
+// processSnapshot functions over a real index.
+type VerifPartitionSM struct {
+	p *partition
+}
+
+func VerifNewPartitionSM(meta *pb.Dataset) *VerifPartitionSM {
+	id := uuid.NewV4()
+	d := &Dataset{id: uuid.FromBytesOrNil(meta.GetId()), meta: meta, partitionsMu: &sync.RWMutex{}}
+	p := &partition{
+		id:          id,
+		meta:        &pb.Partition{Id: id.Bytes()},
+		dataset:     d,
+		index:       newIndexFromDatasetProto(meta),
+		raftMu:      &sync.RWMutex{},
+		notificator: utils.NewNotificator(),
+		log:         log.WithFields(log.Fields{"partition_id": id}),
+	}
+	return &VerifPartitionSM{p: p}
+}
+
+// Apply feeds one serialized PartitionChange exactly as the raft ready-loop
+// would, with a waiter registered under notifId. It returns the outcome the
+// waiter received (nil interface if none was delivered), whether one was
+// delivered, and the error returned to the ready-loop (fatal there).
+func (this *VerifPartitionSM) Apply(data []byte, notifId uuid.UUID) (interface{}, bool, error) {
+	c := this.p.notificator.VerifCreateWithId(notifId, 1)
+	defer this.p.notificator.Remove(notifId)
+	if err := this.p.process(data); err != nil {
+		return nil, false, err
+	}
+	select {
+	case v := <-c:
+		if br, ok := v.(partitionBatchResult); ok {
+			return map[uuid.UUID]error(br), true, nil
+		}
+		return v, true, nil
+	default:
+		return nil, false, nil
+	}
+}
+
+func (this *VerifPartitionSM) Snapshot() ([]byte, error) { return this.p.snapshot() }
+func (this *VerifPartitionSM) Restore(data []byte) error { return this.p.processSnapshot(data) }
+func (this *VerifPartitionSM) Index() *index.Hnsw        { return this.p.index }
+
+// ---- datasets for simulated nodes -----------------------------------------
+
+func VerifNewDataset(meta pb.Dataset, db *badger.DB, transport *raft.RaftTransport, conn *cluster.Conn, dm *DatasetManager) (*Dataset, error) {
+	id, err := uuid.FromBytes(meta.GetId())
+	if err != nil {
+		return nil, err
+	}
+	return newDataset(id, meta, db, transport, conn, dm)
+}
+
+func (this *DatasetManager) VerifAddDataset(d *Dataset) {
+	this.datasetsMu.Lock()
+	defer this.datasetsMu.Unlock()
+	this.datasets[d.id] = d
+}
+
+func (this *Dataset) VerifSetClients(nodeId uint64, s pb.SearchClient, d pb.DataManagerClient) {
+	if s != nil {
+		this.searchClientsMu.Lock()
+		this.searchClients[nodeId] = s
+		this.searchClientsMu.Unlock()
+	}
+	if d != nil {
+		this.dataManagerClientsMu.Lock()
+		this.dataManagerClients[nodeId] = d
+		this.dataManagerClientsMu.Unlock()
+	}
+}
+
+func (this *Dataset) VerifPartitionIndex(i int) *index.Hnsw { return this.partitions[i].index }
+func (this *Dataset) VerifPartitionId(i int) uuid.UUID      { return this.partitions[i].id }
+func (this *Dataset) VerifPartitionNodeIds(i int) []uint64  { return this.partitions[i].nodeIds() }
+func (this *Dataset) VerifPartitionCount() int              { return len(this.partitions) }
+func (this *Dataset) VerifId() uuid.UUID                    { return this.id }
+
+func (this *Dataset) VerifPartitionRaftLoaded(i int) bool {
+	p := this.partitions[i]
+	p.raftMu.RLock()
+	defer p.raftMu.RUnlock()
+	return p.raft != nil
+}
+
+func (this *Dataset) VerifPartitionRaft(i int) *raft.RaftGroup {
+	p := this.partitions[i]
+	p.raftMu.RLock()
+	defer p.raftMu.RUnlock()
+	return p.raft
+}
+
+// VerifPartitionOf is the single-item routing decision.
+func (this *Dataset) VerifPartitionOf(id uuid.UUID) int {
+	p := this.getPartitionForId(id)
+	for i, q := range this.partitions {
+		if p == q {
+			return i
+		}
+	}
+	return -1
+}
+
+// VerifGroupBatch is the batch routing decision (partition index -> items).
+func (this *Dataset) VerifGroupBatch(items []*pb.BatchItem) map[int][]*pb.BatchItem {
+	res := make(map[int][]*pb.BatchItem)
+	for p, its := range this.groupBatchItemsByPartition(items) {
+		for i, q := range this.partitions {
+			if p == q {
+				res[i] = its
+			}
+		}
+	}
+	return res
+}
+
+func (this *Allocator) VerifPlacement(partitionCount uint, replicationFactor uint) [][]uint64 {
+	return this.getPartitionsNodeIds(partitionCount, replicationFactor)
+}
+
+// ---- insertion-point plumbing ----------------------------------------------
+
+var (
+	verifMu           sync.RWMutex
+	verifWALWrapper   func(id uuid.UUID, w wal.WAL) wal.WAL
+	verifProposePause func(partitionId uuid.UUID, proposal *pb.PartitionChange)
+)
+
+// VerifSetWALWrapper lets the harness substitute a monitoring / crash-injecting
+// log store for every partition created afterwards (nil = none).
+func VerifSetWALWrapper(fn func(id uuid.UUID, w wal.WAL) wal.WAL) {
+	verifMu.Lock()
+	verifWALWrapper = fn
+	verifMu.Unlock()
+}
+
+// VerifSetProposePause installs a function called between Propose returning
+// and the caller starting to wait for its outcome (nil = none).
+func VerifSetProposePause(fn func(partitionId uuid.UUID, proposal *pb.PartitionChange)) {
+	verifMu.Lock()
+	verifProposePause = fn
+	verifMu.Unlock()
+}
+
+func verifWrapWAL(id uuid.UUID, w wal.WAL) wal.WAL {
+	verifMu.RLock()
+	fn := verifWALWrapper
+	verifMu.RUnlock()
+	if fn == nil {
+		return w
+	}
+	return fn(id, w)
+}
+
+func verifAfterPropose(p *partition, proposal *pb.PartitionChange) {
+	verifMu.RLock()
+	fn := verifProposePause
+	verifMu.RUnlock()
+	if fn != nil {
+		fn(p.id, proposal)
+	}
+}
